@@ -168,6 +168,32 @@ def direct_ranges(rng, out, thorough):
             if pole and not (r['a'] == r['a']):
                 item['flag'] = 'pole'
             viol.append(item)
+    # ---- solid angle: the draws that rotate back onto a pole (drawn colatitude = the current one, drawn azimuth pi) and their
+    # neighbours: the rotated z is cos^2 + sin^2, which rounding can put one step above 1
+    nbad = 0
+    for i_ in range(max(4 * n, 120)):
+        kappa = rng.choice([2.0, 10.0, 40.0])
+        prop = P.IsotropicSolidAngle('a', 'b', kappa=kappa)
+        prop.bit_generator = numpy.random.PCG64(1)
+        th = rng.uniform(0.05, math.pi - 0.05)
+        c = (math.exp(kappa) - math.exp(kappa * math.cos(th))) * (2 * math.pi * float(prop.norm)) / kappa
+        c = min(max(c + rng.choice([0.0, 1e-16, -1e-16]), 0.0), 1 - 2 ** -53)           # random() draws from [0, 1)
+        ph = rng.choice([0.5, 0.5 + 1e-16, 0.5 - 1e-16])
+        x = {'a': rng.uniform(0, 2 * math.pi), 'b': th}
+        with GenTap(script=Script(us=[ph, c])):
+            try:
+                with numpy.errstate(all='ignore'):
+                    r = prop.jump(dict(x))
+            except Exception as e:      # noqa
+                viol.append(dict(what='IsotropicSolidAngle(kappa=%g).jump raised %r' % (kappa, e), replay=dict(kappa=kappa, fromx=x, u=(ph, c))))
+                continue
+        out.evaluations += 1
+        out.count('range_solid_angle_back_to_pole')
+        if not ((0.0 <= r['a'] <= 2 * math.pi) and (0.0 <= r['b'] <= math.pi)) and nbad < 2:
+            nbad += 1
+            viol.append(dict(what='IsotropicSolidAngle(kappa=%g) proposed (%r, %r) from %s with uniforms (%r, %r) - the draw that rotates back '
+                                  'onto the pole: not a valid azimuth/polar pair' % (kappa, r['a'], r['b'], x, ph, c),
+                             replay=dict(kappa=kappa, fromx=x, u=(ph, c))))
     # ---- births
     for _ in range(n):
         kind = rng.choice(['uniform', 'normal', 'lognormal'])
